@@ -24,13 +24,20 @@ import warnings
 import numpy as np
 
 import gen
-from common import L, ModelRaise, exc_kind
+import history
+from common import L, ModelRaise, exc_kind, read_shuffled
 
 RULE = ("the ten shape classes on off-origin shapes in general position (random rigid motion, offset 1-10 diameters; "
         "gen.polygon2d / gen.convex_base bases, curved shapes with random semi-axes) x every public property, query "
         "method and export found by reflection (plus repr/str, save x 7 file types, coxeter.io.to_* x 7) x "
         "{member alone, ordered pair of members}; quick: every member alone + a fixed rotation of pairs, thorough: "
-        "all ordered pairs; distinct = distinct (class, constructor arguments, member A, member B)")
+        "all ordered pairs; distinct = distinct (class, constructor arguments, member A, member B).  Deepening round: "
+        "(order) ALL ordered pairs (q1 then q2 against q2 on a fresh twin) of the non-file members of every class on an "
+        "off-origin tilted / near-tilted shape, also in the quick tier; (ctor) every class x input container (list, "
+        "tuple, float64 C / Fortran order, non-contiguous view, float32, int64; (N,2) and (N,3); normal / centre in the "
+        "same container) with byte snapshots and np.shares_memory after the constructor and after every query of a "
+        "shuffled sequence, and the heap model's constructor run on the same input; (hist) shapes reached through "
+        "mutators (history.via_history) with every hot member followed by a sweep of all public properties")
 ASSUMPTIONS = [
     "observables = the public getters; the attributes _vertices/_normal/_centroid/_equations/_volume/_area/_radius/"
     "_a/_b/_c/_faces/_neighbors/_simplices are compared directly because each is returned as is by a public getter",
@@ -41,6 +48,12 @@ ASSUMPTIONS = [
     "skip list (not queries): setters, mutators (diagonalize_inertia, merge_faces, sort_faces), plot, to_plato_scene "
     "(need matplotlib/plato), deprecated warn-only aliases",
     "model externals at the driver: centroid answers are the values the real getters returned (content-keyed table)",
+    "a to_hoomd drift is classified as the known finding only if every coordinate of the vertex array moved by at "
+    "most |c1| + 11 u S (theorem to_hoomd_drift_rounded: c1 = centroid the real getter returns for the centred shape, "
+    "u = 2^-53, S = largest of |coordinate|, |c0|, |c1|) AND the Float run of the model reproduces the array bit for "
+    "bit; anything larger is a violation",
+    "Polyhedron keeps the caller's FACE index arrays (self._faces = [face for face in faces]); no query writes them "
+    "(checked bit for bit), the aliasing itself is a constructor matter (C15) and is only counted",
 ]
 
 EPS = float(np.finfo(float).eps)
@@ -49,6 +62,8 @@ CLS_ORDER = ["Circle", "Ellipse", "Sphere", "Ellipsoid", "Polygon", "ConvexPolyg
              "Polyhedron", "ConvexPolyhedron", "ConvexSpheropolyhedron"]
 CLS_CODE = {n: i for i, n in enumerate(CLS_ORDER)}
 VERTEX_CLASSES = CLS_ORDER[4:]
+# classes whose to_hoomd moves the live vertex array to the origin and back (C16.MovesVerts in the Lean model)
+MOVES_VERTS = ("Polygon", "ConvexPolygon", "Polyhedron", "ConvexPolyhedron", "ConvexSpheropolyhedron")
 FILETYPES = ["OBJ", "OFF", "STL", "PLY", "VTK", "X3D", "HTML"]
 FMT_CODE = {t: i for i, t in enumerate(FILETYPES)}
 
@@ -89,8 +104,9 @@ def shapes_mod():
     return coxeter.shapes
 
 
-def gen_params(rng, cls):
-    """constructor arguments (JSON-able) of an off-origin shape in general position."""
+def gen_params(rng, cls, force_plane=None, max_verts=14):
+    """constructor arguments (JSON-able) of an off-origin shape in general position (planar classes: in the xy-plane,
+    in an almost-but-not-exactly axis-aligned plane, or in a random plane; `force_plane` picks one)."""
     if cls in ("Circle", "Sphere"):
         return {"radius": float(rng.uniform(0.3, 3.0)), "center": off_centre(rng, 2.0, flat=(cls == "Circle"))}
     if cls == "Ellipse":
@@ -101,7 +117,7 @@ def gen_params(rng, cls):
     if cls in ("Polygon", "ConvexPolygon", "ConvexSpheropolygon"):
         convex = cls != "Polygon"
         kind = ["convex", "rect", "triangle"][int(rng.integers(3))] if convex else \
-            ["star", "comb", "spiral", "lattice", "reflex"][int(rng.integers(5))]
+            ["star", "comb", "spiral", "lattice", "reflex_first"][int(rng.integers(5))]
         for _ in range(50):
             try:
                 _, p2 = gen.polygon2d(rng, kind=kind)
@@ -111,13 +127,21 @@ def gen_params(rng, cls):
                     continue
             if len(p2) <= 12:
                 break
-        plane = "xy" if (cls == "ConvexSpheropolygon" or rng.random() < 0.3) else "random"
+        r = rng.random()
+        plane = "xy" if (cls == "ConvexSpheropolygon" or r < 0.25) else ("neartilt" if r < 0.5 else "random")
+        if force_plane is not None and cls != "ConvexSpheropolygon":
+            plane = force_plane
         v, fr = gen.embed_polygon(rng, p2, plane=plane, offset_diams=float(rng.uniform(1.0, 10.0)))
         out = {"vertices": v.tolist()}
-        if rng.random() < 0.5:
-            out["normal"] = (np.array(fr["n"]) * float(rng.uniform(0.5, 3.0))).tolist()   # not unit length
+        nrm = np.array(fr["n"])
+        if cls == "Polygon" and rng.random() < 0.2:
+            # the same polygon described with the opposite orientation: clockwise vertices, explicit opposite normal
+            out["vertices"] = v[::-1].tolist()
+            out["normal"] = (-nrm * float(rng.uniform(0.5, 3.0))).tolist()
+        elif rng.random() < 0.5:
+            out["normal"] = (nrm * float(rng.uniform(0.5, 3.0))).tolist()   # not unit length
         if cls == "ConvexSpheropolygon":
-            out["radius"] = float(rng.uniform(0.1, 0.6)) * gen.diameter(v)
+            out["radius"] = 0.0 if rng.random() < 0.1 else float(rng.uniform(0.1, 0.6)) * gen.diameter(v)
         return out
     # polyhedra
     kind = ["box", "prism", "antiprism", "pyramid", "dipyramid", "simplex", "ellipsoid", "lattice"][int(rng.integers(8))]
@@ -126,9 +150,9 @@ def gen_params(rng, cls):
             _, base = gen.convex_base(rng, kind=kind)
         except Exception:
             _, base = gen.convex_base(rng, kind="box")
-        if 4 <= len(base) <= 14 and gen.in_convex_position(base):
+        if 4 <= len(base) <= max_verts and gen.in_convex_position(base):
             break
-        kind = "box"
+        kind = "box" if max_verts >= 8 else "simplex"
     v, info = gen.place(rng, base, offset_diams=float(rng.uniform(1.0, 10.0)), scale=1.0)
     out = {"vertices": v.tolist()}
     if cls == "Polyhedron":
@@ -136,7 +160,7 @@ def gen_params(rng, cls):
         out["vertices"] = cp.vertices.tolist()
         out["faces"] = [[int(i) for i in f] for f in cp.faces]
     if cls == "ConvexSpheropolyhedron":
-        out["radius"] = float(rng.uniform(0.05, 0.4)) * gen.diameter(v)
+        out["radius"] = 0.0 if rng.random() < 0.1 else float(rng.uniform(0.05, 0.4)) * gen.diameter(v)
     return out
 
 
@@ -240,7 +264,10 @@ def member_args(shape, m, case):
         size = 1.0
     n = m.name
     if n == "is_inside":
+        # the centre, points around the shape, a point with tiny coordinates near the ORIGIN and a far one: shifting
+        # the caller's array by the centroid in place and shifting it back loses the low bits of the last two
         pts = cen + np.vstack([np.zeros((1, 3)), rng.normal(size=(4, 3)) * size * 3.0 + 7.0 * size])
+        pts = np.vstack([pts, rng.normal(size=(1, 3)) * 1e-3 * size, cen + rng.normal(size=(1, 3)) * 1e3 * size])
         return [pts]
     if n == "compute_form_factor_amplitude":
         return [rng.normal(size=(4, 3)) / max(size, 1e-3)]
@@ -248,7 +275,8 @@ def member_args(shape, m, case):
         # always some angles outside [0, 2 pi): an in-place range reduction must show
         return [np.concatenate([[-0.75, 6.9, 2 * np.pi], rng.uniform(0.0, 6.0, size=3)])]
     if n == "get_face_area":
-        return [] if m.variant == "none" else ([np.array([0, 1])] if m.variant == "ids" else [[0, 1]])
+        # unsorted ids: an in-place sort / unique of the caller's index array must show
+        return [] if m.variant == "none" else ([np.array([2, 0, 1])] if m.variant == "ids" else [[1, 0]])
     if n == "get_dihedral":
         nb = getattr(core, "_neighbors", None)
         return [0, int(nb[0][0])] if nb is not None else [0, 1]
@@ -711,6 +739,7 @@ class Trial:
             rebound_pred = {MODEL_ATTRS[i] for i, b in enumerate(model["bound"]) if not b}
             self.correspond(m, model, pre, arrs0, arrs1, ans, can, keys0, mover, arg0, a)
 
+        self.last_tables, self.last_pre = tables, pre
         self.compare_state(m, mover, arrs0, scal0, arrs1)
         self.check_handed(m, mover, rebound_pred)
 
@@ -833,6 +862,13 @@ class Trial:
                 if np.all(d <= attr_tol(attr, val, Ls)):
                     continue
                 big = np.all(d <= 1e-9 * max(Ls, 1.0)) and self.explained
+                if big and attr == "_vertices":
+                    # theorem to_hoomd_drift_rounded: every coordinate within |c1| + 11 u S of where it was
+                    bound = self.drift_bound(m, val)
+                    ctx.count("drift-bound-checked")
+                    if bound is None or not np.all(d <= bound):
+                        big = False
+                        ctx.count("drift-bound-exceeded")
                 if big:
                     drift_sig = True
                     continue
@@ -855,6 +891,25 @@ class Trial:
                       "moving the shape to the origin and back leaves vertices / cached observables off by more than "
                       "two roundings (the centroid getter is not exactly translation equivariant in floating point)",
                       {"scale": Ls})
+
+    def drift_bound(self, m, v0):
+        """(N,3) array of |c1_k| + 11 u S (Props/C16.lean: to_hoomd_drift_rounded), from the centroid the REAL getter
+        returned for the centred shape (c1) and at the start (c0); None when the member is not to_hoomd of a class that
+        moves its vertex array (nothing else may drift beyond two roundings)."""
+        if m.name != "to_hoomd" or self.cls not in MOVES_VERTS:
+            return None
+        cen, cenv = self.last_tables
+        try:
+            if self.cls in ("ConvexPolyhedron", "ConvexSpheropolyhedron"):
+                c1 = np.asarray(cenv[0][1], dtype=float)
+                c0 = np.asarray(self.last_pre["_centroid"], dtype=float).ravel()
+            else:
+                c0 = np.asarray(cen[0][1], dtype=float)
+                c1 = np.asarray(cen[1][1], dtype=float)
+        except (IndexError, KeyError):
+            return None
+        S = max(float(np.abs(v0).max()), float(np.abs(c0).max()), float(np.abs(c1).max()))
+        return np.abs(c1)[None, :] + 11.0 * (EPS / 2.0) * S
 
     def report_state(self, m, attr, path, what, size):
         if attr in PUBLIC_ATTR:
@@ -917,10 +972,11 @@ _REF = {}
 
 def reference(case, key, tmpdir):
     """answer of member `key` on a freshly constructed twin."""
-    ck = (case["cls"], repr(case["params"]), repr(case.get("json_attrs")), case.get("argseed", 0))
+    ck = (case["cls"], repr(case["params"]), repr(case.get("json_attrs")), case.get("argseed", 0),
+          bool(case.get("via_history")))
     tab = _REF.setdefault(ck, {})
     if key not in tab:
-        sh, _ = build(case["cls"], case["params"])
+        sh, _ = build_case(case)
         ms, _ = members_of(type(sh))
         m = [x for x in ms if x.key == key][0]
         a = member_args(sh, m, case) if m.kind == "method" else []
@@ -953,6 +1009,15 @@ def json_attrs_for(cls, params):
 
 def eval_case(ctx, case):
     cls = case["cls"]
+    mode = case.get("mode")
+    if mode == "order":
+        return eval_order_case(ctx, case)
+    if mode == "ctor":
+        return eval_ctor_case(ctx, case)
+    if mode == "hist":
+        return eval_hist_case(ctx, case)
+    if mode == "bits":
+        return eval_bits_case(ctx, case)
     with tempfile.TemporaryDirectory(prefix="c16_") as tmpdir:
         try:
             t = Trial(ctx, case, tmpdir)
@@ -1000,6 +1065,7 @@ def eval_case(ctx, case):
                        [brief(b1), brief(refB)])
         else:
             # all cheap public observables against the untouched twin
+            read_before = []
             for m in t.members:
                 if m.kind != "prop":
                     continue
@@ -1009,12 +1075,35 @@ def eval_case(ctx, case):
                 if not same(canon(ans), ref, rel, t.Ls) and m.name in RANDOM_RETRY and t.moved:
                     ctx.count("random-retry-differs-after-move")
                 elif not same(canon(ans), ref, rel, t.Ls):
-                    t.fail(keyA, "observable-changed:" + m.key,
-                           "after this query the public observable differs from the untouched twin",
-                           [brief(canon(ans)), brief(ref)])
+                    # who did it: A, or a property read earlier in this very sweep?  (first one that reproduces alone)
+                    who = blame(case, [A] + read_before, m, ref, max(rel, 1e-9 if moves(A, case, cls) else 0.0), tmpdir)
+                    if who is None or who.key == keyA:
+                        t.fail(keyA, "observable-changed:" + m.key,
+                               "after this query the public observable differs from the untouched twin",
+                               [brief(canon(ans)), brief(ref)])
+                    else:
+                        t.fail(who.key, "changes-answer-of:" + m.key,
+                               "after reading this member another member answers differently than on an untouched twin "
+                               "(found while sweeping the observables after `%s`)" % keyA, [brief(canon(ans)), brief(ref)])
+                read_before.append(m)
         # Q: the spec's answer for a move-and-move-back (exact rationals, equivariant centroid): nothing changed
         if moves(A, case, cls) and case.get("q_check"):
             spec_check(ctx, t, A, case)
+
+
+def blame(case, candidates, m, ref, rel, tmpdir):
+    """the first candidate member after which (alone, on a fresh object) member `m` no longer answers `ref`"""
+    for p in candidates:
+        try:
+            sh, _ = build_case(case)
+            if light_call(sh, p, case, tmpdir) == ("uncallable",):
+                continue
+            got = light_call(sh, m, case, tmpdir)
+        except Exception:  # noqa: BLE001
+            continue
+        if not same(got, ref, rel, scale_of(sh)):
+            return p
+    return None
 
 
 def tol_for(m, after_move, t, case):
@@ -1053,6 +1142,613 @@ def spec_check(ctx, t, A, case):
         ctx.fail("%s.%s:observable-changed:vertices" % (cls, A.key), "vertices differ from the spec (unchanged)", case, d)
 
 
+
+# --------------------------------------------------------------------------- light observation (order / ctor / hist sweeps)
+
+def light_members(C):
+    """the members examined in ALL ordered pairs: everything found by reflection except the 14 file exports
+    (those are covered by the fully observed histories of eval_case)"""
+    ms, _ = members_of(C)
+    return [m for m in ms if m.kind not in ("save", "io")]
+
+
+def light_state(shape):
+    """values of the state-bearing arrays and floats (copies), keyed by attribute path"""
+    arrs, scal = snapshot(shape)
+    return {p: v for p, (a, v) in arrs.items() if attr_of(p) not in CACHE_KEYS}, scal
+
+
+def state_diff(st0, st1, rel, Ls):
+    """first state path whose value differs (beyond rel * scale) or None"""
+    a0, s0 = st0
+    a1, s1 = st1
+    for p, v in a0.items():
+        w = a1.get(p)
+        if w is None or w.shape != v.shape:
+            return p, "shape"
+        if v.dtype.kind != "f":
+            if not np.array_equal(v, w):
+                return p, "changed"
+            continue
+        if np.array_equal(v, w, equal_nan=True):
+            continue
+        if rel == 0:
+            return p, float(np.nanmax(np.abs(v - w)))
+        attr = attr_of(p)
+        sc = 1.0 if attr in ("_normal",) else Ls
+        tol = np.full(v.shape, rel * max(sc, 1e-300))
+        if attr in ("_equations", "_simplex_equations"):
+            tol[..., :3] = rel
+        if not np.all(np.abs(v - w) <= tol):
+            return p, float(np.nanmax(np.abs(v - w)))
+    for k, v in s0.items():
+        w = s1.get(k)
+        if w is None:
+            return k, "missing"
+        if w == v or (w != w and v != v):
+            continue
+        if rel == 0 or not isinstance(v, float):
+            return k, float(abs(w - v)) if isinstance(v, (int, float)) else "changed"
+        attr = k.split(".")[-1]
+        sc = Ls ** 3 if attr == "_volume" else (Ls ** 2 if attr == "_area" else Ls)
+        if abs(w - v) > rel * sc:
+            return k, float(abs(w - v))
+    return None
+
+
+def report_light(ctx, cls, member, dfr, case, what):
+    """a changed state path: a violation when a public getter returns that attribute as is; private state (a cache the
+    model does not know) is a model/implementation disagreement, as in Trial.report_state"""
+    attr = attr_of(dfr[0].split(".")[-1] if "." in dfr[0] else dfr[0])
+    if attr in PUBLIC_ATTR:
+        ctx.fail("%s.%s:observable-changed:%s" % (cls, member, PUBLIC_ATTR[attr]), what, case, [member] + list(dfr))
+    else:
+        ctx.disagree("heap.run:private-state", case, [member] + list(dfr))
+
+
+def light_call(shape, m, case, tmpdir):
+    a = member_args(shape, m, case) if m.kind == "method" else []
+    ans, _ = call_member_with(shape, m, case, tmpdir, a)
+    return canon(ans)
+
+
+# --------------------------------------------------------------------------- (order) all ordered pairs, light
+
+def eval_order_case(ctx, case, tmpdir=None):
+    """case: cls, params, A (asked first), B (asked second), mode 'order'.  B's answer right after A must be B's
+    answer on a fresh twin (bit for bit unless A moved the shape and moved it back: 1e-9), the state must be the fresh
+    twin's, the constructor's argument arrays must be untouched."""
+    own = tmpdir is None
+    if own:
+        tmpdir = tempfile.mkdtemp(prefix="c16_")
+    try:
+        cls = case["cls"]
+        sh, ctor = build_case(case)
+        ctor_bytes = {k: a.tobytes() for k, a in ctor.items()}
+        ms = {m.key: m for m in light_members(type(sh))}
+        if case["A"] not in ms or case["B"] not in ms:
+            ctx.count("member-missing:%s|%s" % (case["A"], case["B"]))
+            return
+        A, B = ms[case["A"]], ms[case["B"]]
+        Ls = scale_of(sh)
+        st0 = light_state(sh)
+        def untouched(who, before):
+            """state and constructor arrays around ONE call: the member that did it gets the blame"""
+            now = light_state(sh)
+            dfr = state_diff(before, now, 1e-9 if moves(who, case, cls) else 0.0, Ls)
+            if dfr is not None:
+                report_light(ctx, cls, who.key, dfr, case, "the query changed the state")
+            for k, arr in ctor.items():
+                if arr.tobytes() != ctor_bytes[k]:
+                    ctx.fail("%s.%s:argument-modified:%s" % (cls, who.key, k),
+                             "the caller's %s array passed to the constructor was modified by a query" % k, case,
+                             [k, A.key, B.key])
+                    ctor_bytes[k] = arr.tobytes()
+            return now
+
+        a = light_call(sh, A, case, tmpdir)
+        if a == ("uncallable",):
+            return
+        st1 = untouched(A, st0)
+        b = light_call(sh, B, case, tmpdir)
+        if b == ("uncallable",):
+            return
+        untouched(B, st1)
+        moved = moves(A, case, cls)
+        rel = 1e-6 if (B.name in RANDOM_RETRY and moved) else (1e-9 if moved else 0.0)
+        refB = reference(case, B.key, tmpdir)
+        if not same(b, refB, rel, Ls):
+            if B.name in RANDOM_RETRY and moved:
+                ctx.count("random-retry-differs-after-move")
+            else:
+                ctx.fail("%s.%s:changes-answer-of:%s" % (cls, A.key, B.key),
+                         "asked right after this query another member answers differently than on a fresh twin",
+                         case, [brief(b), brief(refB)])
+    finally:
+        if own:
+            import shutil
+            shutil.rmtree(tmpdir, ignore_errors=True)
+
+
+HOT = ("to_hoomd", "inertia_tensor", "face_centroids", "get_face_area", "get_face_area[ids]", "edges", "to_json",
+       "vertices", "centroid", "planar_moments_inertia", "polar_moment_inertia", "volume", "area", "is_inside",
+       "minimal_bounding_sphere", "minimal_bounding_circle", "gsd_shape_spec", "normal", "equations")
+
+
+def order_sweep(ctx, cls, base, tmpdir, first=None):
+    ms = light_members(getattr(shapes_mod(), cls))
+    keys = [m.key for m in ms]
+    for a in (keys if first is None else [k for k in keys if k in first]):
+        for b in keys:
+            case = dict(base, mode="order", A=a, B=b)
+            ctx.count("order-pair")
+            ctx.case(case)
+            eval_order_case(ctx, case, tmpdir)
+
+
+# --------------------------------------------------------------------------- (ctor) input containers, caller-owned arrays
+
+CONTAINERS = ["list", "tuple", "f64C", "f64F", "view", "f32", "int"]
+
+
+def containerize(a, kind):
+    """the same numbers in another container; 'f32' / 'int' need values that survive the conversion"""
+    a = np.asarray(a, dtype=float)
+    if kind == "list":
+        return a.tolist()
+    if kind == "tuple":
+        return tuple(tuple(r) for r in a.tolist()) if a.ndim == 2 else tuple(a.tolist())
+    if kind == "f64C":
+        return np.ascontiguousarray(a.copy())
+    if kind == "f64F":
+        return np.asfortranarray(a.copy())
+    if kind == "view":
+        if a.ndim == 2:
+            big = np.full((2 * a.shape[0] + 1, a.shape[1] + 2), 7.5)
+            big[1::2, 1:1 + a.shape[1]] = a
+            return big[1::2, 1:1 + a.shape[1]]
+        big = np.full(2 * a.size + 1, 7.5)
+        big[1::2] = a
+        return big[1::2]
+    if kind == "f32":
+        return a.astype(np.float32)
+    if kind == "int":
+        return np.rint(a).astype(np.int64)
+    raise ValueError(kind)
+
+
+def lattice_params(rng, cls):
+    """integer-valued off-origin shapes (exact in float32 and int64)"""
+    o = [int(x) for x in rng.integers(5, 40, size=3) * rng.choice([-1, 1], size=3)]
+    if cls in ("Circle", "Sphere"):
+        return {"radius": 2.0, "center": [float(o[0]), float(o[1]), float(o[2])]}
+    if cls == "Ellipse":
+        return {"a": 3.0, "b": 2.0, "center": [float(x) for x in o]}
+    if cls == "Ellipsoid":
+        return {"a": 3.0, "b": 2.0, "c": 1.0, "center": [float(x) for x in o]}
+    if cls in ("Polygon", "ConvexPolygon", "ConvexSpheropolygon"):
+        w, h = int(rng.integers(2, 7)), int(rng.integers(1, 5))
+        if cls == "Polygon":   # an L
+            p2 = [[0, 0], [w + 2, 0], [w + 2, 1], [1, 1], [1, h + 2], [0, h + 2]]
+        else:
+            p2 = [[0, 0], [w, 0], [w + 1, h], [1, h + 1]]
+        v = [[float(x + o[0]), float(y + o[1]), 0.0] for x, y in p2]
+        out = {"vertices": v, "normal": [0.0, 0.0, 2.0]}
+        if cls == "ConvexSpheropolygon":
+            out["radius"] = 1.0
+        return out
+    a, b, c = (int(x) for x in rng.integers(1, 5, size=3))
+    v = [[float(o[0] + i * a), float(o[1] + j * b), float(o[2] + k * c)] for i in (0, 1) for j in (0, 1) for k in (0, 1)]
+    out = {"vertices": v}
+    if cls == "Polyhedron":
+        cp = shapes_mod().ConvexPolyhedron(np.array(v))
+        out["vertices"] = cp.vertices.tolist()
+        out["faces"] = [[int(i) for i in f] for f in cp.faces]
+    if cls == "ConvexSpheropolyhedron":
+        out["radius"] = 1.0
+    return out
+
+
+def caller_arrays(given):
+    """[(name, ndarray)] the caller owns (face index arrays one by one)"""
+    out = []
+    for k, v in given.items():
+        if isinstance(v, np.ndarray):
+            out.append((k, v))
+        elif k == "faces":
+            out += [("faces[%d]" % i, f) for i, f in enumerate(v)]
+    return out
+
+
+def blob(x):
+    return (x.tobytes(), x.shape, x.dtype.str, x.strides) if isinstance(x, np.ndarray) else copy.deepcopy(x)
+
+
+def ctor_model(ctx, case, sh, seen, two_cols, queries):
+    """B: the heap model's constructor (Model/Heap.lean `construct`) on the same input, followed by the same queries:
+    no attribute is bound to a caller's array, the caller's arrays keep their bits, `_vertices` right after the
+    constructor holds the input (padded with zeros for (N,2) input, reordered for the convex classes)."""
+    cls = case["cls"]
+    core = core_of(sh)
+    vin = seen.get("vertices", np.zeros((0, 3)))
+    perm = []
+    v_now = np.array(vars(core).get("_vertices", np.zeros((0, 3))), dtype=float)
+    if cls in ("ConvexPolygon", "ConvexSpheropolygon"):
+        vin3 = np.hstack([vin, np.zeros((len(vin), 1))]) if two_cols else vin
+        for row in v_now:
+            hit = np.where(np.all(vin3 == row, axis=1))[0]
+            if len(hit) != 1:
+                ctx.disagree("heap.ctor:rows", case, ["row of _vertices not found among the input rows", row.tolist()])
+                return
+            perm.append(int(hit[0]))
+    cn = np.array(vars(core).get("_normal", []), dtype=float)
+    req = [CLS_CODE[cls], 1 if two_cols else 0, flat(vin), 1 if "normal" in seen else 0, flat(seen.get("normal", [])),
+           flat(seen.get("center", [])), flat(cn), L(perm), flat(vars(core).get("_equations", [])),
+           flat(vars(core).get("_simplex_equations", [])), flat(vars(core).get("_centroid", [])),
+           float(vars(core).get("_volume", 0.0))]
+    # the queries: a length-prefixed list, each query as in heap.run
+    req += [len(queries)] + [t for q in queries for t in q]
+    try:
+        r = ctx.driver.F("heap.ctor", *req)
+    except ModelRaise as e:
+        ctx.disagree("heap.ctor", case, ["model raised " + e.kind])
+        return
+    it = iter(r)
+    det0 = [next(it) for _ in range(3)]
+    det1 = [next(it) for _ in range(3)]
+
+    def rd_list():
+        k = next(it)
+        return [next(it) for _ in range(k)]
+
+    after = [rd_list() for _ in range(3)]
+    ctor_now = [rd_list() for _ in range(3)]
+    ctx.count("B:ctor-compared")
+    if det0 != [1, 1, 1] or det1 != [1, 1, 1]:
+        ctx.disagree("heap.ctor:detached", case, [det0, det1])
+    for idx, k in ((0, "vertices"), (1, "normal"), (2, "center")):
+        if k in seen:
+            if not np.array_equal(bits(np.array(after[idx], dtype=float)), bits(seen[k])):
+                ctx.disagree("heap.ctor:caller-bits", case, [k])
+    if v_now.size:
+        if not np.array_equal(bits(np.array(ctor_now[0], dtype=float)), bits(v_now)):
+            ctx.disagree("heap.ctor:_vertices", case, [cls, two_cols])
+    if "normal" in seen and cn.size:
+        if not ctx.close_enough(np.array(ctor_now[1], dtype=float), cn, 1.0):
+            ctx.disagree("heap.ctor:_normal", case, [ctor_now[1], cn.tolist()])
+    if "center" in seen:
+        if not np.array_equal(bits(np.array(ctor_now[2], dtype=float)), bits(np.asarray(vars(sh)["_centroid"], dtype=float))):
+            ctx.disagree("heap.ctor:_centroid", case, [cls])
+
+
+def eval_ctor_case(ctx, case, tmpdir=None):
+    """case: cls, params, container, two_cols, members (order of the queries), mode 'ctor'."""
+    own = tmpdir is None
+    if own:
+        tmpdir = tempfile.mkdtemp(prefix="c16_")
+    try:
+        cls, cont, two = case["cls"], case["container"], bool(case.get("two_cols"))
+        # the caller's objects, snapshotted BEFORE the constructor sees them
+        given0 = {}
+        for k in ("vertices", "normal", "center"):
+            if k in case["params"]:
+                a = np.array(case["params"][k], dtype=float)
+                if k == "vertices" and two:
+                    a = a[:, :2]
+                given0[k] = containerize(a, cont)
+        pre_given = {k: blob(v) for k, v in given0.items()}
+        try:
+            sh, given, seen = build_with(cls, case["params"], given0)
+        except Exception as e:  # noqa: BLE001
+            # which inputs a constructor accepts is property C15's business: counted, not judged here
+            ctx.count("ctor-rejected:%s:%s:%s" % (cls, cont, exc_kind(e)))
+            return
+        ctx.count("ctor:%s:%s%s" % (cls, cont, ":Nx2" if two else ""))
+        # ---- the constructor itself: arguments unchanged, nothing of the caller's kept
+        for k, v in given0.items():
+            if blob(v) != pre_given[k]:
+                ctx.fail("%s.__init__:argument-modified:%s" % (cls, k),
+                         "the constructor modified the caller's %s (%s)" % (k, cont), case, [k, cont])
+        owned = caller_arrays(given)
+        for k, arr in owned:
+            p = alias_of(arr, sh)
+            if p is not None:
+                if k.startswith("faces"):
+                    ctx.count("observed:Polyhedron-keeps-caller-face-arrays")
+                else:
+                    ctx.fail("%s.__init__:keeps-caller-array:%s" % (cls, k),
+                             "the shape keeps the caller's %s array (%s) instead of a copy" % (k, cont), case, [k, cont, p])
+        snaps = {k: blob(arr) for k, arr in owned}
+        lists = {k: copy.deepcopy(v) for k, v in given.items() if not isinstance(v, np.ndarray) and k != "faces"}
+        ms = {m.key: m for m in light_members(type(sh))}
+        Ls = scale_of(sh)
+        st0 = light_state(sh)
+        moved = False
+        model_queries = []
+        for key in case["members"]:
+            m = ms.get(key)
+            if m is None:
+                continue
+            ans = light_call(sh, m, case, tmpdir)
+            if ans == ("uncallable",):
+                continue
+            if model_query(m, case)[0] != 5:
+                model_queries.append(model_query(m, case))
+            moved = moved or moves(m, case, cls)
+            for k, arr in owned:
+                if blob(arr) != snaps[k]:
+                    ctx.fail("%s.%s:argument-modified:%s" % (cls, m.key, k.split("[")[0]),
+                             "a query modified the caller's %s array that was passed to the constructor (%s)" % (k, cont),
+                             case, [k, cont, m.key])
+                    snaps[k] = blob(arr)
+                if not k.startswith("faces") and alias_of(arr, sh) is not None:
+                    ctx.fail("%s.%s:keeps-caller-array:%s" % (cls, m.key, k),
+                             "after this query the shape shares memory with the caller's %s array" % k, case, [k, cont])
+            for k, v in lists.items():
+                if given[k] != v:
+                    ctx.fail("%s.%s:argument-modified:%s" % (cls, m.key, k),
+                             "a query modified the caller's %s (%s)" % (k, cont), case, [k, cont, m.key])
+                    lists[k] = copy.deepcopy(given[k])
+        dfr = state_diff(st0, light_state(sh), 1e-9 if moved else 0.0, Ls)
+        if dfr is not None:
+            report_light(ctx, cls, "queries", dfr, case,
+                         "after the sequence of queries the state differs from the freshly constructed one")
+        # B: the model's constructor on what the constructor saw, read against a FRESH object (this one may have drifted)
+        fresh = build_with(cls, case["params"], {k: containerize(seen[k], "f64C") for k in seen})[0]
+        ctor_model(ctx, case, fresh, seen, two, model_queries)
+    finally:
+        if own:
+            import shutil
+            shutil.rmtree(tmpdir, ignore_errors=True)
+
+
+def build_with(cls, params, given):
+    """construct with the caller's objects `given` (vertices / normal / center)"""
+    S = shapes_mod()
+    C = getattr(S, cls)
+    given = dict(given)
+    seen = {k: np.array(v, dtype=np.float64) for k, v in given.items()}
+    if cls == "Polyhedron":
+        given["faces"] = [np.array(f, dtype=np.int64) for f in params["faces"]]
+    if cls in ("Circle", "Sphere"):
+        sh = C(params["radius"], given["center"])
+    elif cls == "Ellipse":
+        sh = C(params["a"], params["b"], given["center"])
+    elif cls == "Ellipsoid":
+        sh = C(params["a"], params["b"], params["c"], given["center"])
+    elif cls in ("Polygon", "ConvexPolygon"):
+        sh = C(given["vertices"], normal=given.get("normal"))
+    elif cls == "ConvexSpheropolygon":
+        sh = C(given["vertices"], params["radius"], normal=given.get("normal"))
+    elif cls == "Polyhedron":
+        sh = C(given["vertices"], given["faces"])
+    elif cls == "ConvexPolyhedron":
+        sh = C(given["vertices"])
+    else:
+        sh = C(given["vertices"], params["radius"])
+    return sh, given, seen
+
+
+def ctor_member_order(ctx, cls, key, n_extra):
+    """the movers first candidates + a sample of the other members, in an order drawn per case"""
+    ms = light_members(getattr(shapes_mod(), cls))
+    keys = [m.key for m in ms]
+    must = [k for k in ("to_hoomd", "inertia_tensor", "to_json", "is_inside", "compute_form_factor_amplitude",
+                        "distance_to_surface", "gsd_shape_spec", "repr", "vertices", "centroid", "get_face_area[ids]",
+                        "face_centroids", "minimal_centered_bounding_sphere", "minimal_centered_bounding_circle")
+            if k in keys]
+    rest = [k for k in keys if k not in must]
+    _, order = read_shuffled({k: (lambda: None) for k in rest}, [cls, key, "rest"])
+    pick = must + (order if n_extra is None else order[:n_extra])
+    _, order2 = read_shuffled({k: (lambda: None) for k in pick}, [cls, key, "order"])
+    return order2
+
+
+def ctor_sweep(ctx, cls, generic, tmpdir):
+    lat = lattice_params(ctx.rng, cls)
+    n_extra = None if ctx.tier == "thorough" else 6
+    plans = [(generic, c, False, False) for c in ("list", "tuple", "f64C", "f64F", "view")]
+    plans += [(lat, c, False, True) for c in ("f64C", "f32", "int", "list")]
+    if cls in ("Polygon", "ConvexPolygon", "ConvexSpheropolygon"):
+        flat2 = gen_params(ctx.rng, cls, force_plane="xy")
+        flat2.pop("normal", None)
+        plans += [(flat2, c, True, False) for c in ("list", "f64C", "view")]
+        # a normal that is ALREADY a unit float64 vector (nothing to normalise: must still be copied)
+        unit = dict(generic)
+        if "normal" in unit:
+            nn = np.array(unit["normal"], dtype=float)
+        else:
+            vv = np.array(unit["vertices"], dtype=float)
+            nn = np.cross(vv[2] - vv[1], vv[0] - vv[1])
+            if cls == "Polygon":
+                sh0, _ = build(cls, unit)
+                nn = np.array(sh0.normal, dtype=float)
+        unit["normal"] = (nn / np.linalg.norm(nn)).tolist()
+        plans += [(unit, c, False, False) for c in ("f64C", "view")]
+        zed = dict(flat2, vertices=[r + [0.0] for r in np.array(flat2["vertices"])[:, :2].tolist()], normal=[0.0, 0.0, 1.0])
+        plans += [(zed, "f64C", False, False)]
+        if cls == "Polygon":
+            down = dict(zed, vertices=zed["vertices"][::-1], normal=[0.0, 0.0, -1.0])
+            plans += [(down, "f64C", False, False)]
+        plans += [(dict(lat, **{}), c, True, True) for c in ("int", "f32")]
+    for params, cont, two, lattice in plans:
+        case = {"cls": cls, "params": params, "container": cont, "two_cols": two, "lattice": lattice, "mode": "ctor",
+                "argseed": 5, "json_attrs": ["vertices", "centroid", "inertia_tensor"] if cls in VERTEX_CLASSES[:2] + VERTEX_CLASSES[3:5]
+                else ["gsd_shape_spec"]}
+        if two and "normal" in params and lattice:
+            case["params"] = {k: v for k, v in params.items() if k != "normal"}
+        case["members"] = ctor_member_order(ctx, cls, [cont, two, lattice], n_extra)
+        ctx.count("ctor-case")
+        ctx.case(case)
+        eval_ctor_case(ctx, case, tmpdir)
+
+
+# --------------------------------------------------------------------------- (bits) many placements, every member, bitwise state
+
+def scaled_params(params, k):
+    """the same shape scaled by k about the origin (vertices / centre / radii / axes)"""
+    out = dict(params)
+    for key in ("vertices", "center"):
+        if key in out:
+            out[key] = (np.array(out[key], dtype=float) * k).tolist()
+    for key in ("radius", "a", "b", "c"):
+        if key in out:
+            out[key] = float(out[key]) * k
+    return out
+
+
+def eval_bits_case(ctx, case, tmpdir=None):
+    """case: cls, params, members (order), mode 'bits'.  ONE object; after every member the state must be bit for
+    bit what it was before that member (members that move the shape and move it back: 1e-9 of the scale), the
+    constructor's arrays must keep their bytes."""
+    own = tmpdir is None
+    if own:
+        tmpdir = tempfile.mkdtemp(prefix="c16_")
+    try:
+        cls = case["cls"]
+        try:
+            sh, ctor = build_case(case)
+        except Exception as e:  # noqa: BLE001
+            ctx.count("bits:constructor-raised:" + exc_kind(e))
+            return
+        ctor_bytes = {k: a.tobytes() for k, a in ctor.items()}
+        ms = {m.key: m for m in light_members(type(sh))}
+        Ls = scale_of(sh)
+        for key in case["members"]:
+            m = ms.get(key)
+            if m is None:
+                continue
+            st0 = light_state(sh)
+            a = member_args(sh, m, case) if m.kind == "method" else []
+            snap = [blob(x) for x in a] if a else []
+            call_member_with(sh, m, case, tmpdir, a)
+            mv = moves(m, case, cls)
+            dfr = state_diff(st0, light_state(sh), 1e-9 if mv else 0.0, Ls)
+            if dfr is not None:
+                report_light(ctx, cls, m.key, dfr, case, "the query changed the state (bitwise comparison around the call)")
+            for i, x in enumerate(a or []):
+                if blob(x) != snap[i]:
+                    ctx.fail("%s.%s:argument-modified" % (cls, m.key), "an argument passed by the caller was modified",
+                             case, [m.key, i])
+            for k, arr in ctor.items():
+                if arr.tobytes() != ctor_bytes[k]:
+                    ctx.fail("%s.%s:argument-modified:%s" % (cls, m.key, k),
+                             "the caller's %s array passed to the constructor was modified by a query" % k, case, [k, m.key])
+                    ctor_bytes[k] = arr.tobytes()
+    finally:
+        if own:
+            import shutil
+            shutil.rmtree(tmpdir, ignore_errors=True)
+
+
+def bits_sweep(ctx, cls, tmpdir):
+    keys = [m.key for m in light_members(getattr(shapes_mod(), cls))]
+    # the polyhedra cost 10-100 ms per shape, everything else about 10 ms
+    n = ctx.budget(24, 120) * (1 if cls in ("Polyhedron", "ConvexPolyhedron", "ConvexSpheropolyhedron", "Polygon") else 2)
+    for i in range(n):
+        plane = [None, "neartilt", "random", "xy"][i % 4]
+        params = gen_params(ctx.rng, cls, force_plane=plane)
+        if i % 3 == 2:
+            k = float(10 ** ctx.rng.uniform(-3, 3))
+            params = scaled_params(params, k)
+            ctx.count("bits:scaled")
+        case = {"cls": cls, "params": params, "argseed": int(ctx.rng.integers(1 << 30)), "mode": "bits",
+                "json_attrs": ["vertices", "centroid", "inertia_tensor"] if cls in MOVES_VERTS[:4] else ["gsd_shape_spec"]}
+        _, order = read_shuffled({k: (lambda: None) for k in keys}, [cls, i, case["argseed"]])
+        case["members"] = order
+        ctx.count("bits-case")
+        ctx.case(case)
+        eval_bits_case(ctx, case, tmpdir)
+
+
+# --------------------------------------------------------------------------- (hist) shapes reached through mutators
+
+def build_case(case):
+    """the shape of a case: built directly, or (case['via_history']) reached through mutators from a scaled and
+    shifted copy (history.via_history; deterministic per case).  Returns (shape, constructor arrays to watch)."""
+    sh, args = build(case["cls"], case["params"])
+    if case.get("via_history"):
+        pin_randomness()
+        o, how = history.via_history(sh, history.rng_for([case["cls"], case["params"].get("vertices", case["params"].get("center"))]))
+        if how.startswith("via"):
+            return o, {}
+    return sh, args
+
+
+def eval_hist_case(ctx, case, tmpdir=None):
+    """case: cls, params, via_history, A, mode 'hist': on an object reached through mutators, member A and then every
+    public property must answer as on an equally reached, untouched twin; the state must be the twin's."""
+    own = tmpdir is None
+    if own:
+        tmpdir = tempfile.mkdtemp(prefix="c16_")
+    try:
+        cls = case["cls"]
+        sh, _ = build_case(case)
+        twin, _ = build_case(case)
+        st_t = light_state(twin)
+        st0 = light_state(sh)
+        if state_diff(st_t, st0, 0.0, 1.0) is not None:
+            ctx.count("hist:not-reproducible")
+            return
+        ms = {m.key: m for m in light_members(type(sh))}
+        A = ms.get(case["A"])
+        if A is None:
+            return
+        Ls = scale_of(sh)
+        a1 = light_call(sh, A, case, tmpdir)
+        if a1 == ("uncallable",):
+            return
+        moved = moves(A, case, cls)
+        a2 = light_call(sh, A, case, tmpdir)
+        if not same(a2, a1, 1e-9 if moved else 0.0, Ls) and not (A.name in RANDOM_RETRY and moved):
+            ctx.fail("%s.%s:not-idempotent" % (cls, A.key), "repeating the query returned a different answer (object "
+                     "reached through mutators)", case, [brief(a1), brief(a2)])
+        rel = 1e-9 if moved else 0.0
+        dfr = state_diff(st0, light_state(sh), rel, Ls)
+        if dfr is not None:
+            report_light(ctx, cls, A.key, dfr, case, "the query changed the state of an object reached through mutators")
+        thunks = {m.key: (lambda m=m: light_call(sh, m, case, tmpdir)) for m in ms.values() if m.kind == "prop"}
+        got, _ = read_shuffled(thunks, [cls, case["A"], "hist"])
+        for k, v in got.items():
+            ref = light_call(twin, ms[k], case, tmpdir)
+            r = 1e-6 if (ms[k].name in RANDOM_RETRY) else rel
+            if not same(v, ref, r, Ls):
+                if ms[k].name in RANDOM_RETRY and moved:
+                    ctx.count("random-retry-differs-after-move")
+                    continue
+                ctx.fail("%s.%s:changes-answer-of:%s" % (cls, A.key, k),
+                         "after this query (object reached through mutators) another member answers differently than on "
+                         "an untouched twin", case, [brief(v), brief(ref)])
+    finally:
+        if own:
+            import shutil
+            shutil.rmtree(tmpdir, ignore_errors=True)
+
+
+def hist_sweep(ctx, cls, base, tmpdir):
+    case0 = dict(base, via_history=True, mode="hist")
+    sh, _ = build(cls, base["params"])
+    pin_randomness()
+    _, how = history.via_history(sh, history.rng_for([cls, base["params"].get("vertices", base["params"].get("center"))]))
+    ctx.count("hist:" + how.split(":")[0] + (":" + how.split(":", 1)[1] if how.startswith("direct") else ""))
+    if not how.startswith("via"):
+        return
+    keys = [m.key for m in light_members(getattr(shapes_mod(), cls))]
+    hot = [k for k in keys if k in ("to_hoomd", "inertia_tensor", "face_centroids", "get_face_area", "edges", "to_json",
+                                   "vertices", "centroid", "planar_moments_inertia", "polar_moment_inertia", "volume",
+                                   "minimal_bounding_sphere", "minimal_bounding_circle", "is_inside")]
+    if ctx.tier == "thorough":
+        pick = keys
+    else:
+        _, order = read_shuffled({k: (lambda: None) for k in keys if k not in hot}, [cls, "hist-pick"])
+        pick = hot + order[:4]
+    for k in pick:
+        case = dict(case0, A=k)
+        ctx.count("hist-case")
+        ctx.case(case)
+        eval_hist_case(ctx, case, tmpdir)
+
+
 # --------------------------------------------------------------------------- generation
 
 def make_shape_case(rng, cls, ctx):
@@ -1063,9 +1759,17 @@ def make_shape_case(rng, cls, ctx):
 
 
 def run(ctx):
+    import time
     S = shapes_mod()
     n_shapes = ctx.budget(1, 3)
     skipped_all = set()
+    cpu = {"observed-histories": 0.0, "order": 0.0, "ctor": 0.0, "bits": 0.0, "hist": 0.0}
+    tick = [time.process_time()]
+
+    def lap(name):
+        now = time.process_time()
+        cpu[name] += now - tick[0]
+        tick[0] = now
     for cls in CLS_ORDER:
         C = getattr(S, cls)
         ms, skipped = members_of(C)
@@ -1097,7 +1801,33 @@ def run(ctx):
                 ctx.count("pair")
                 ctx.case(case)
                 eval_case(ctx, case)
+        lap("observed-histories")
+        # ---- deepening round: all ordered pairs (light), input containers, objects reached through mutators
+        with tempfile.TemporaryDirectory(prefix="c16_") as tmpdir:
+            planes = ["neartilt", "random"] if (ctx.seed + CLS_CODE[cls]) % 2 == 0 else ["random", "neartilt"]
+            n_order = 1 if (ctx.tier == "quick" and ctx.widen == 1) else 2
+            for oi in range(n_order):
+                # (the general Polyhedron's members cost ~face count x 1 ms each: a small solid for the 1600 pairs)
+                ob = {"cls": cls, "params": gen_params(ctx.rng, cls, force_plane=planes[oi],
+                                                       max_verts=8 if cls == "Polyhedron" else 14),
+                      "argseed": int(ctx.rng.integers(1 << 30))}
+                ob["json_attrs"] = json_attrs_for(cls, ob["params"])
+                ctx.count("order-shape:%s:%s" % (cls, planes[oi] if cls in ("Polygon", "ConvexPolygon") else "placed"))
+                order_sweep(ctx, cls, ob, tmpdir)
+            if ctx.tier == "thorough":
+                ob = dict(make_shape_case(ctx.rng, cls, ctx), via_history=True)
+                ctx.count("order-shape:%s:via-history" % cls)
+                order_sweep(ctx, cls, ob, tmpdir, first=HOT[:7])
+            lap("order")
+            ctor_sweep(ctx, cls, gen_params(ctx.rng, cls), tmpdir)
+            lap("ctor")
+            bits_sweep(ctx, cls, tmpdir)
+            lap("bits")
+            hist_sweep(ctx, cls, make_shape_case(ctx.rng, cls, ctx), tmpdir)
+            lap("hist")
+        _REF.clear()
     ctx.extra["skipped_members"] = {k: SKIP[k] for k in sorted(skipped_all)}
+    ctx.extra["section_cpu_s"] = {k: round(v, 1) for k, v in cpu.items()}
 
 
 def replay(ctx, payload):
